@@ -48,15 +48,17 @@ Theorem C08_statement_respelling :
   StExprProofs.all_triv token StInstance.tok_class w00 -> t_kind fb = KFunctionBlock ->
   StExprProofs.all_triv token StInstance.tok_class w0 -> t_kind nm = KIdentifier ->
   StExprProofs.all_triv token StInstance.tok_class w1 ->
-  StStmtProofs.wf_l token StInstance.tok_class StInstance.op_level l ->
+  StStmtProofs.wf_l token StInstance.tok_class StInstance.op_level true l ->
   StExprProofs.all_triv token StInstance.tok_class w2 -> t_kind en = KEndFunctionBlock ->
   StExprProofs.all_triv token StInstance.tok_class w3 ->
+  (StStmtProofs.absorbs token l = true -> w2 = []) ->
   StExprProofs.all_triv token StInstance.tok_class w00' -> t_kind fb' = KFunctionBlock ->
   StExprProofs.all_triv token StInstance.tok_class w0' -> t_kind nm' = KIdentifier ->
   StExprProofs.all_triv token StInstance.tok_class w1' ->
-  StStmtProofs.wf_l token StInstance.tok_class StInstance.op_level l' ->
+  StStmtProofs.wf_l token StInstance.tok_class StInstance.op_level true l' ->
   StExprProofs.all_triv token StInstance.tok_class w2' -> t_kind en' = KEndFunctionBlock ->
   StExprProofs.all_triv token StInstance.tok_class w3' ->
+  (StStmtProofs.absorbs token l' = true -> w2' = []) ->
   StStmtProofs.erase_l token t_text StInstance.tok_num l = StStmtProofs.erase_l token t_text StInstance.tok_num l' ->
   StInstance.parse_fb_tokens (w00 ++ fb :: w0 ++ nm :: w1 ++ StStmtProofs.flat_l token l ++ w2 ++ en :: w3) =
   StInstance.parse_fb_tokens (w00' ++ fb' :: w0' ++ nm' :: w1' ++ StStmtProofs.flat_l token l' ++ w2' ++ en' :: w3').
